@@ -109,6 +109,7 @@ func TestWorker(t *testing.T) {
 		fmt.Fprintln(os.Stderr, "unknown engine", name)
 		os.Exit(2)
 	}
+	workerT = t
 	debug.SetMaxStack(256 << 20)
 	seed := uint64(envInt("VERIF_SEED", 1))
 	from, to := envInt("VERIF_FROM", 0), envInt("VERIF_TO", 100)
